@@ -245,12 +245,13 @@ def main(argv):
     ap.add_argument("--repo")
     ap.add_argument("--only")
     ap.add_argument("--no-evidence", action="store_true")
+    ap.add_argument("--verify-tests", action="store_true")
     a = ap.parse_args(argv)
     if a.repo:
         factsmod.REPO = a.repo
     if a.prop == "selftest":
         from . import selftest
-        return selftest.main(a.only)
+        return selftest.main(a.only, verify_tests=a.verify_tests)
     if a.prop == "all":
         PROPERTIES, _ = registry()
         rc = 0
